@@ -34,14 +34,14 @@ type gateEv struct {
 }
 
 type gatedOp struct {
-	name    string
-	evCh    chan gateEv   // op -> driver: parked at a gate
-	relCh   chan struct{} // driver -> op: continue
-	doneCh  chan any      // op -> driver: finished (value = recovered panic or nil)
-	parked  *gateEv
-	done    bool
-	panicV  any
-	skip    map[string]bool // gate names that are passed without parking
+	name   string
+	evCh   chan gateEv   // op -> driver: parked at a gate
+	relCh  chan struct{} // driver -> op: continue
+	doneCh chan any      // op -> driver: finished (value = recovered panic or nil)
+	parked *gateEv
+	done   bool
+	panicV any
+	skip   map[string]bool // gate names that are passed without parking
 }
 
 type gateTable struct {
